@@ -468,10 +468,34 @@ func oracleC11(e *Env, i int) *Violation {
 		hex.EncodeToString(h.ID) != strings.ReplaceAll(s.ID, "-", "") {
 		return &Violation{Prop: "C11", Key: "C11:header-fields", What: "independent decode of the header differs from the accessors", Op: i}
 	}
+	// the architecture code of the header, through the format's own table (01..12, 00 = unknown)
+	wantArch := "unknown"
+	if len(h.Arch) == 3 && h.Arch[0] >= '0' && h.Arch[0] <= '9' && h.Arch[1] >= '0' && h.Arch[1] <= '9' && h.Arch[2] == 0 {
+		if n := int(h.Arch[0]-'0')*10 + int(h.Arch[1]-'0'); n >= 1 && n <= len(archNames) {
+			wantArch = archNames[n-1]
+		}
+	}
+	if s.Arch != wantArch {
+		return &Violation{Prop: "C11", Key: "C11:header-fields", What: fmt.Sprintf("header architecture code %q is reported as %q, the format's table says %q", h.Arch, s.Arch, wantArch), Op: i}
+	}
 	var live []rawDesc
 	for _, d := range ds {
 		if d.Used {
 			live = append(live, d)
+		}
+	}
+	// the two fields no accessor exposes (uid, gid) are visible in the integrity stream
+	var streams [][]byte
+	f.WithDescriptors(func(d sif.Descriptor) bool {
+		streams = append(streams, readAll(d.GetIntegrityReader()))
+		return false
+	})
+	if len(streams) == len(live) {
+		for k, d := range live {
+			st := streams[k]
+			if len(st) >= 45 && (le64(st[29:37]) != d.UID || le64(st[37:45]) != d.GIDow) {
+				return &Violation{Prop: "C11", Key: "C11:descriptor-fields", What: fmt.Sprintf("descriptor %d: uid/gid at bytes 57..73 are %d/%d, the library reads %d/%d", d.ID, d.UID, d.GIDow, le64(st[29:37]), le64(st[37:45])), Op: i}
+			}
 		}
 	}
 	if len(live) != len(s.Objs) {
